@@ -191,3 +191,16 @@ Proof.
     split; [apply HA|]. split; [apply HA|]. unfold WRITTEN_OFFSET, DATA_REGION_OFFSET, MAX_SEGMENTS in *. lia.
   - right; left. exists A, b, zz. rewrite (F2 eq_refl). split; [exact D1| exact HA].
 Qed.
+
+(* ---- C17 ---- *)
+Theorem index_zero_rejected checked ffr m u payload plen d :
+  handle_segment checked ffr m u 0 payload plen d = (d, u, RErr (MSpi EOob)).
+Proof. reflexivity. Qed.
+
+Lemma recover_oversize_parity fits sl ni nh si sh :
+  Recover.two_newest sl = (Some (ni, nh), Some (si, sh)) -> 2048 < Slots.hcount nh ->
+  Recover.recover_inner fits sl = (None, sl).
+Proof.
+  intros T H. unfold Recover.recover_inner. rewrite T.
+  destruct (N.leb_spec (Slots.hcount nh) 2048); [lia|]. rewrite !andb_false_r. reflexivity.
+Qed.
